@@ -444,7 +444,106 @@ fn env_probe(bytes: &[u8]) -> Option<String> {
     None
 }
 
+/// Names of environment variables the library's sources mention in files that
+/// read the process environment at run time (string literals that look like
+/// variable names, in files containing `env::var` / `var_os`). Empty on a
+/// tree that reads none — the shipped library does not.
+pub fn env_names_read_by_library() -> &'static [String] {
+    static NAMES: std::sync::OnceLock<Vec<String>> = std::sync::OnceLock::new();
+    NAMES.get_or_init(|| {
+        fn walk(dir: &std::path::Path, out: &mut Vec<String>) {
+            let mut entries: Vec<_> = match std::fs::read_dir(dir) {
+                Ok(r) => r.filter_map(|e| e.ok().map(|e| e.path())).collect(),
+                Err(_) => return,
+            };
+            entries.sort();
+            for p in entries {
+                if p.is_dir() {
+                    walk(&p, out);
+                } else if p.extension().map(|e| e == "rs").unwrap_or(false) {
+                    let text = match std::fs::read_to_string(&p) {
+                        Ok(t) => t,
+                        Err(_) => continue,
+                    };
+                    if !(text.contains("env::var") || text.contains("var_os") || text.contains("env::vars")) {
+                        continue;
+                    }
+                    for piece in text.split('"').skip(1).step_by(2) {
+                        let ok = piece.len() >= 3
+                            && piece.len() <= 64
+                            && piece.bytes().next().map(|b| b.is_ascii_uppercase()).unwrap_or(false)
+                            && piece.bytes().all(|b| b.is_ascii_uppercase() || b.is_ascii_digit() || b == b'_');
+                        if ok && !out.iter().any(|x| x == piece) {
+                            out.push(piece.to_string());
+                        }
+                    }
+                }
+            }
+        }
+        let mut out = Vec::new();
+        walk(std::path::Path::new("/repo/src"), &mut out);
+        out
+    })
+}
+
+/// "For any byte string": also in any process environment. If the library
+/// reads environment variables, open + accessors + verify of `bytes` run in
+/// child processes with each of those variables set to hostile values, for
+/// one openable file in 64 (chosen by content); nothing happens on a tree
+/// whose library reads no environment variable.
+fn hostile_env_probe(bytes: &[u8]) -> Option<String> {
+    use std::io::{Read, Write};
+    use std::process::{Command, Stdio};
+    let names = env_names_read_by_library();
+    if names.is_empty() || bytes.len() > (1 << 20) {
+        return None;
+    }
+    // one file in 64, chosen by its content (the same file is chosen again
+    // when the case is re-executed or replayed)
+    let mut d = crate::rng::Digest::new();
+    d.bytes(bytes);
+    if d.finish() % 64 != 0 {
+        return None;
+    }
+    // (files that do not open never reach the code behind the variables)
+    if !catch_unwind(AssertUnwindSafe(|| fst::raw::Fst::new(bytes).is_ok())).unwrap_or(false) {
+        return None;
+    }
+    for name in names {
+        for val in ["0", "", "1", "-1", "x", "18446744073709551615", "99999999999999999999999", "0.5", "true"] {
+            let exe = std::env::current_exe().expect("harness: current_exe");
+            let mut child = Command::new(exe)
+                .args(["c20-env", "stack"])
+                .env(name, val)
+                .stdin(Stdio::piped())
+                .stdout(Stdio::piped())
+                .stderr(Stdio::null())
+                .spawn()
+                .expect("harness: spawn c20-env");
+            let mut stdin = child.stdin.take().expect("harness: stdin");
+            let _ = stdin.write_all(bytes);
+            drop(stdin);
+            let mut out = String::new();
+            let _ = child.stdout.take().expect("harness: stdout").read_to_string(&mut out);
+            let st = child.wait().expect("harness: wait");
+            if !st.success() {
+                return Some(format!("the process died ({}) during open + accessors + verify with the environment variable {}={:?} (the library reads it)", st, name, val));
+            }
+            if let Some(m) = out.trim().strip_prefix("PANIC ") {
+                return Some(format!("{} in a process whose environment has {}={:?} (the library reads it)", m, name, val));
+            }
+        }
+    }
+    None
+}
+
 pub fn check_c20_bytes(bytes: &[u8]) -> Option<Violation> {
+    if let Some(m) = hostile_env_probe(bytes) {
+        return Some(Violation {
+            oracle: "C20.panic_in_open_accessors_or_verify".into(),
+            observed: format!("{} on {} bytes", m, bytes.len()),
+        });
+    }
     if bytes.len() >= (1 << 30) {
         // a file of a GiB or more: the in-process probe only (copies, child
         // processes and unaligned placements would move tens of GiB around)
